@@ -234,7 +234,7 @@ func guarded(c *core.Ctx, e *entry, stage string, input []byte, fn func()) (ok b
 			if simrt.HangHit {
 				// (the budget panic may have been swallowed or re-wrapped by a dependency on its way up)
 				simrt.HangHit = false
-				c.Fail("hang", "C04/hang/"+stage+"/"+siteFunc(simrt.HangSite), "%s of %d bytes at %s exhausted its step budget (simulated time): a loop that does not terminate in proportion to the input", stage, len(input), e.name)
+				c.Fail("hang", "C04/hang/"+stage, "%s of %d bytes at %s exhausted its step budget (simulated time) in %s: a loop or recursion that does not terminate in proportion to the input", stage, len(input), e.name, siteName(simrt.HangSite))
 			} else {
 				frame, kind := libFrame(r)
 				c.Fail("panic", fmt.Sprintf("C04/panic/%s/%s/%s", stage, frame, kind), "%s at entry point %s panicked on %d bytes %q: %v", stage, e.name, len(input), clip(input, 80), r)
@@ -490,6 +490,8 @@ func direct(c *core.Ctx) {
 }
 
 // ---------------------------------------------------------------- helpers
+
+var _ = siteFunc
 
 func siteFunc(site uint32) string {
 	s := siteName(site)
